@@ -251,6 +251,7 @@ class C06(StreamProp):
 
 class C08(StreamProp):
     id = 'C08'
+    props_files = ['C08', 'C08b']
     rule = ('from_utf8 vs model: all byte strings of length <= 2 and length 3-4 over a 24-letter alphabet of byte-class representatives (exhaustive in thorough), random longer; '
             'fragmented text through read: boundary scalars and every invalid form x cuts into <= 4 fragments; delivered text checked with Python bytes.decode; '
             'MA: Message/Frame accessor API (is_*, len, is_empty, into_data, into_text, to_text, Display, From/TryFrom conversions) on valid/invalid payloads of every message kind and raw frames at the length-form boundaries')
